@@ -148,9 +148,16 @@ def check_api_invariants(api, filtered=False):
             fail('linearize_aliases_not_permutation', ns.name)
         pos = {id(a): i for i, a in enumerate(la)}
         for a in la:
-            t = a.data_type
-            if isinstance(t, D.Alias) and t.namespace is ns and pos.get(id(t), -1) > pos[id(a)]:
-                fail('linearize_alias_target_after', a.name)
+            pending = [a.data_type]
+            while pending:
+                t = pending.pop()
+                if isinstance(t, D.Alias):
+                    if t.namespace is ns and pos.get(id(t), -1) > pos[id(a)]:
+                        fail('linearize_alias_target_after', a.name)
+                elif isinstance(t, (D.List, D.Nullable)):
+                    pending.append(t.data_type)
+                elif isinstance(t, D.Map):
+                    pending.extend([t.key_data_type, t.value_data_type])
     return bad
 
 
